@@ -21,7 +21,7 @@ EVENT = 'EVENT'  # pseudo participant: "fire the earliest pending event"
 
 # op kinds whose occurrence depends on the schedule (they only appear when a thread had to
 # block); they are excluded from the schedule-independent per-thread op index.
-UNSTABLE_KINDS = frozenset(('recv.wait', 'ev.wake', 'cv.wake', 'stall'))
+UNSTABLE_KINDS = frozenset(('recv.wait', 'ev.wake', 'cv.wake', 'stall', 'line'))
 
 
 class SimKill(BaseException):
@@ -44,7 +44,8 @@ class SimThread:
     __slots__ = ('sim', 'tid', 'name', 'role', 'baton', 'fn', 'finished', 'exc',
                  'exc_tb', 'parked', 'op', 'obj', 'enabled_fn', 'nops', 'nstable',
                  'stall_until', 'idle_stall', 'inject', 'started', 'retval',
-                 'kind_counts', 'pytarget', 'last_kind', 'last_obj', 'spin', 'baton_done')
+                 'kind_counts', 'pytarget', 'last_kind', 'last_obj', 'spin', 'baton_done',
+                 'line_arm')
 
     def __init__(self, sim, tid, name, role, fn):
         self.sim = sim
@@ -74,6 +75,7 @@ class SimThread:
         self.last_obj = None
         self.spin = False
         self.baton_done = None
+        self.line_arm = None
 
     def is_enabled(self):
         if self.idle_stall:
@@ -92,29 +94,37 @@ class SimThread:
 class Stall:
     """Freeze thread `role` when it is about to perform its `index`-th stable operation
     (or, if `after_kind` is given, the operation following its n-th operation of that
-    kind).  duration: simulated seconds, or None = until everything else has quiesced."""
+    kind).  duration: simulated seconds, or None = until everything else has quiesced.
 
-    __slots__ = ('role', 'index', 'duration', 'fired', 'after_kind', 'after_n', 'after_obj')
+    lines=k moves the freeze off the synchronisation operation: the thread performs that
+    operation, goes on for k more source lines of the code under test (files below
+    Sim.trace_root, counted with sys.settrace in that thread only, from that operation on) and is
+    frozen there -- in the middle of a stretch of code that contains no synchronisation at all.
+    If it reaches its next synchronisation operation first, the stall does not fire."""
+
+    __slots__ = ('role', 'index', 'duration', 'fired', 'after_kind', 'after_n', 'after_obj',
+                 'lines')
 
     def __init__(self, role, index=None, duration=None, after_kind=None, after_n=None,
-                 after_obj=None):
+                 after_obj=None, lines=None):
         self.role = role
         self.index = index
         self.duration = duration
         self.after_kind = after_kind
         self.after_n = after_n
         self.after_obj = after_obj
+        self.lines = lines
         self.fired = False
 
     def to_json(self):
         return {'role': self.role, 'index': self.index, 'duration': self.duration,
                 'after_kind': self.after_kind, 'after_n': self.after_n,
-                'after_obj': self.after_obj}
+                'after_obj': self.after_obj, 'lines': self.lines}
 
     @classmethod
     def from_json(cls, d):
         return cls(d['role'], d.get('index'), d.get('duration'), d.get('after_kind'),
-                   d.get('after_n'), d.get('after_obj'))
+                   d.get('after_n'), d.get('after_obj'), d.get('lines'))
 
 
 class Interrupt:
@@ -274,6 +284,8 @@ class Sim:
         # come to a standstill: the operator who sees a hung table manager and presses Ctrl-C
         self.interrupt_on_hang = interrupt_on_hang
         self.hang_interrupt_fired = False
+        # source files whose lines count for Stall(lines=k): the package under test
+        self.trace_root = None
 
         self.ctl = _thread.allocate_lock()
         self.ctl.acquire()
@@ -408,6 +420,10 @@ class Sim:
         if self.aborting:
             raise SimKill()
         t = self.me()
+        if t.line_arm is not None and kind != 'line':
+            # reached the next synchronisation operation before the armed line count ran out
+            sys.settrace(None)
+            t.line_arm = None
         t.op = kind
         t.obj = obj
         t.enabled_fn = enabled
@@ -448,6 +464,10 @@ class Sim:
                     hit = (t.last_kind == s.after_kind and
                            t.kind_counts.get(s.after_kind, 0) == s.after_n and
                            (s.after_obj is None or (t.last_obj or '').startswith(s.after_obj)))
+                if hit and s.lines:
+                    s.fired = True      # armed; counted as a fault only if it gets to freeze
+                    self._arm_line_stall(t, s)
+                    break
                 if hit:
                     s.fired = True
                     self._apply_stall(t, s)
@@ -466,6 +486,40 @@ class Sim:
                     t.inject = s.exc_type
                     self.count_fault('interrupt')
                     self._mark_fault()
+
+    def _arm_line_stall(self, t, s):
+        """Called in thread t itself, on its way into a synchronisation operation."""
+        root = self.trace_root
+        if not root:
+            return
+        left = [int(s.lines)]
+        sim = self
+
+        def local(frame, event, arg):
+            if event == 'line' and t.line_arm is s:
+                left[0] -= 1
+                if left[0] <= 0:
+                    sys.settrace(None)
+                    sim.count_fault('stall.midcode')
+                    sim._apply_stall(t, s)
+                    where = frame.f_code.co_filename[len(root):] + ':' + str(frame.f_lineno)
+                    sim.yield_('line', where)
+                    t.line_arm = None
+                    return None
+            return local
+
+        def glob(frame, event, arg):
+            if t.line_arm is s and frame.f_code.co_filename.startswith(root):
+                return local
+            return None
+
+        f = sys._getframe(1)
+        while f is not None:
+            if f.f_code.co_filename.startswith(root):
+                f.f_trace = local
+            f = f.f_back
+        t.line_arm = s
+        sys.settrace(glob)
 
     def _mark_fault(self):
         self.last_fault_decision = self.decisions
